@@ -348,13 +348,22 @@ def sym_iterable_loader_errors(vc):
             r.attrs['call:infer'] = infer
             return r
         m.attrs['Resource'] = UFunc('Resource', Resource, False)
-        dp = Opaque('Package', 'dp')
-        desc = Tree('dpdesc')
         from pyvc.api import SV, IntS, SymList, SymSeq
-        desc.schema = {'resources': lambda it_, n, k: SymList(SymSeq('existing', it_.fresh('existing', IntS), None), [])}
-        dp.attrs['descriptor'] = desc
-        dp.attrs['resources'] = Opaque('reslist', 'resources')
-        dp.attrs['resources'].attrs['__len__'] = SV(it.fresh('nres', IntS))
+        from contracts.common import mk_package2
+        pw = mk_package2(it, 'dp')
+        dp = pw.attrs['pkg']
+        desc = dp.attrs['descriptor']
+        dp.attrs['resources'].attrs['__len__'] = SV(pw.nres)
+        made = {}
+        Resource0 = m.attrs['Resource']
+
+        def Resource2(it_, a, k):
+            made['desc'] = a[0]
+            return Resource0.apply(it_, a, k)
+        m.attrs['Resource'] = UFunc('Resource', Resource2, False)
+        # the name search (skip names that are taken) is cut: the candidate number only grows from its start value
+        from pyvc.api import term
+        it.loops['iterable_loader.process_datapackage#L0'] = LoopSpec(inv=lambda it_, env: term(env.lookup('index'), IntS) >= pw.nres + 1)
         try:
             r = it.call(it.lib.getattr_(it, il, 'process_datapackage'), [dp])
         except PyExc as pe:
@@ -367,6 +376,46 @@ def sym_iterable_loader_errors(vc):
         aps = [e for e in it.path.events if e.kind == 'Append']
         check(it, 'new-resource-appended-after-existing-ones', len(aps) == 1 or bool(desc.writes))
     vc.explore(fk2, thunk2, min_paths=2)
+
+
+def sym_iterable_loader_naming(vc):
+    """iterable_loader.process_datapackage (C02 / C16): the appended resource gets a name that no resource of the package already
+    has, and its descriptor goes to the end of the list -- BOUNDED STRUCTURE: a package with exactly n = 0..3 existing resources
+    of arbitrary (symbolic) names; the search loop is cut with its invariant"""
+    from pyvc.api import real_function, LoopSpec, check, cover, Stream, UFunc, Opaque
+    fk2 = vc.under_contract('dataflows/helpers/iterable_loader.py', ['iterable_loader', 'process_datapackage'])
+    vc.bounded_label = 'structure: 0..3 existing resources'
+    for n in (0, 1, 2, 3):
+        def thunk3(it, n=n):
+            import z3
+            from pyvc.api import PyDict, PyList, sym_str, term, StrS, IntS, SV
+            IL = real_function(it, 'dataflows.helpers.iterable_loader', 'iterable_loader')
+            m = it.module('dataflows.helpers.iterable_loader')
+            il = it.call(IL, [Stream('user_iterable', lambda it_: it_.fresh_row('item'))])
+            made = {}
+
+            def Resource(it_, a, k):
+                made['desc'] = a[0]
+                r = Opaque('Resource', 'new_res')
+                r.attrs['descriptor'] = a[0]
+                r.attrs['call:infer'] = lambda it2, o, a2, k2: None
+                return r
+            m.attrs['Resource'] = UFunc('Resource', Resource, False)
+            names = [sym_str(it, 'existing_name%d' % i) for i in range(n)]
+            existing = PyList([PyDict({'name': nm, 'path': 'p%d.csv' % i}) for i, nm in enumerate(names)])
+            dp = Opaque('Package', 'dp')
+            dp.attrs['descriptor'] = PyDict({'resources': existing})
+            dp.attrs['resources'] = Opaque('reslist', 'resources')
+            dp.attrs['resources'].attrs['__len__'] = n
+            it.loops['iterable_loader.process_datapackage#L0'] = LoopSpec(inv=lambda it_, env: term(env.lookup('index'), IntS) >= n + 1)
+            it.call(it.lib.getattr_(it, il, 'process_datapackage'), [dp])
+            nm = made['desc'].d['name'] if 'desc' in made else None
+            check(it, 'auto-name-differs-from-every-existing-resource-name[%d existing]' % n,
+                  nm is not None and z3.And(*([term(x, StrS) != term(nm, StrS) for x in names] or [z3.BoolVal(True)])))
+            check(it, 'new-descriptor-is-the-last-of-the-list[%d existing]' % n, len(existing.items) == n + 1 and
+                  existing.items[-1] is made.get('desc') or (len(existing.items) == n + 1 and isinstance(existing.items[-1], PyDict)
+                                                            and existing.items[-1].d.get('name') is nm))
+        vc.explore(fk2, thunk3)
 
 
 # ------------------------------------------------------------------------------------------------ bounded fault injection
@@ -449,6 +498,32 @@ def nat_fault_injection(h):
                         pass
         finally:
             shutil.rmtree(d, ignore_errors=True)
+
+
+def nat_source_failures(h):
+    """bounded: an iterable SOURCE that raises at row k -- inside and beyond the schema-inference sample (100 rows), at the last row,
+    at exhaustion -- for several exception classes: process() / results() raise a ProcessorError whose cause is that very exception"""
+    import tableschema
+    from dataflows import Flow
+    from dataflows.base.exceptions import ProcessorError
+    classes = [RuntimeError, KeyError, ValueError, tableschema.exceptions.CastError, tableschema.exceptions.UniqueKeyError, UnicodeError]
+    for n, k in ((5, 0), (5, 4), (5, 5), (150, 50), (150, 99), (150, 100), (150, 101), (150, 149), (150, 150), (1200, 1100)):
+        for cls in (classes if k in (0, 100, 150) else classes[:2]):
+            for api in ('process', 'results'):
+                marker = cls('injected')
+
+                def gen():
+                    for i in range(n):
+                        if i == k:
+                            raise marker
+                        yield {'a': i}
+                    if k == n:
+                        raise marker
+                got = h.run(lambda: getattr(Flow(gen()), api)())
+                e = got[2] if got[0] == 'exc' else None
+                ok = isinstance(e, ProcessorError) and e.cause is marker
+                h.check(ok, 'dataflows/helpers/iterable_loader.py::iterable_loader.process_resources', (n, k, cls.__name__, api),
+                        'ProcessorError whose cause is the injected exception', (got[1], repr(getattr(e, 'cause', None))[:120]))
 
 
 def nat_commit_after_failure(h):
